@@ -1,3 +1,301 @@
+/-
+  Lemmas/Trans.lean — invariants of the small-step model of the serialised open ⇄ closed transitions
+  (CircuitModel/Conc/Trans.lean), used by Props/C09Conc.lean.  Structure:
+    * `run_inv_tr`: an invariant preserved by every enabled step holds after every schedule;
+    * list facts about `alternates` (append, counting);
+    * `Good`: what the lock holder has observed at each program point; `step_holder` / `step_start`: one step of it;
+    * `Inv`: the global invariant (static flags, alternation, mutual exclusion, flag = last notification when the
+      lock is free) and its preservation `Inv_step`;
+    * `Quiet` / `QInv`: with an override in force nobody ever reaches `notify` (needs no mutual exclusion).
+-/
 import CircuitModel.Conc.Trans
 namespace CM.Conc.Trans
+open CM.Conc
+
+/-! ### generic -/
+
+theorem run_inv_tr {σ loc : Type} (S : Sys σ loc) (I : Config σ loc → Prop)
+    (hstep : ∀ (c : Config σ loc) (i : Nat) (l : loc) (s' : σ) (l' : loc), I c → c.locals[i]? = some l →
+      S.step i c.shared l = some (s', l') → I { shared := s', locals := c.locals.set i l' })
+    (c : Config σ loc) (h : I c) (sched : List Nat) : I (run S c sched) := by
+  induction sched generalizing c with
+  | nil => exact h
+  | cons i rest ih =>
+    simp only [run]
+    split
+    · exact ih c h
+    · rename_i l hl
+      split
+      · exact ih c h
+      · rename_i s' l' hs
+        exact ih _ (hstep c i l s' l' h hl hs)
+
+/-! ### alternation -/
+
+theorem alternates_append (p : Bool) (l : List Bool) (b : Bool) :
+    alternates p (l ++ [b]) = (alternates p l && (b != (l.getLast?).getD p)) := by
+  induction l generalizing p with
+  | nil => simp [alternates]
+  | cons a r ih =>
+    simp only [List.cons_append, alternates, ih]
+    cases r with
+    | nil => simp [Bool.and_assoc]
+    | cons c r' => simp [List.getLast?_cons, Bool.and_assoc]
+
+theorem getLast?_append_single (l : List Bool) (b p : Bool) : ((l ++ [b]).getLast?).getD p = b := by
+  simp
+
+/-- counting in an alternating list: the sharper statement depends on the element before the list -/
+theorem alternates_count (p : Bool) (l : List Bool) (h : alternates p l = true) :
+    (p = true → ((l.filter id).length : Int) ≤ (l.filter (!·)).length ∧
+                ((l.filter (!·)).length : Int) ≤ (l.filter id).length + 1) ∧
+    (p = false → ((l.filter (!·)).length : Int) ≤ (l.filter id).length ∧
+                 ((l.filter id).length : Int) ≤ (l.filter (!·)).length + 1) := by
+  induction l generalizing p with
+  | nil => simp
+  | cons b r ih =>
+    simp only [alternates, Bool.and_eq_true, bne_iff_ne, ne_eq] at h
+    have := ih b h.2
+    cases b <;> cases p <;> simp_all <;> omega
+
+theorem alternates_balance (p : Bool) (l : List Bool) (h : alternates p l = true) :
+    ((l.filter id).length : Int) - (l.filter (!·)).length ≤ 1 ∧
+    ((l.filter (!·)).length : Int) - (l.filter id).length ≤ 1 := by
+  have := alternates_count p l h
+  cases p <;> simp at this <;> omega
+
+/-! ### the lock holder -/
+
+/-- the last notification delivered (the initial state if none) -/
+def lastN (io : Bool) (s : Shared) : Bool := (s.log.getLast?).getD io
+
+/-- what the holder of the lock knows at each program point -/
+def Good (io : Bool) (s : Shared) (l : Local) : Prop :=
+  match l.pc, l.job with
+  | .start, _ => False
+  | .done, _ => False
+  | .guard1, _ => s.isOpen = lastN io s
+  | .isOpenFO, .open => s.isOpen = lastN io s ∧ s.forcedClosed = false
+  | .isOpenFO, .close _ _ => s.isOpen = lastN io s
+  | .isOpenFC, .open => s.isOpen = lastN io s ∧ s.forcedClosed = false
+  | .isOpenFC, .close _ _ => s.isOpen = lastN io s
+  | .isOpenFlag, _ => s.isOpen = lastN io s
+  | .guard2, .open => s.isOpen = lastN io s
+  | .guard2, .close _ _ => s.isOpen = lastN io s ∧ (s.forceOpen = false → s.isOpen = true)
+  | .decide, .open => s.isOpen = lastN io s
+  | .decide, .close _ _ => s.isOpen = true ∧ lastN io s = true
+  | .notify, .open => s.isOpen = false ∧ lastN io s = false
+  | .notify, .close _ _ => s.isOpen = true ∧ lastN io s = true
+  | .store, .open => lastN io s = true
+  | .store, .close _ _ => lastN io s = false
+  | .unlock, _ => s.isOpen = lastN io s
+
+/-- one step of the lock holder -/
+theorem step_holder (io : Bool) (i : Nat) (s s' : Shared) (l l' : Local)
+    (halt : alternates io s.log = true) (hg : Good io s l) (hs : step i s l = some (s', l')) :
+    s'.forceOpen = s.forceOpen ∧ s'.forcedClosed = s.forcedClosed ∧ alternates io s'.log = true ∧
+    ((s'.holder = s.holder ∧ Good io s' l') ∨ (s'.holder = none ∧ l'.pc = .done ∧ s'.isOpen = lastN io s')) := by
+  obtain ⟨job, pc⟩ := l
+  cases pc <;> cases job <;> simp only [step, Good, lastN] at hs hg ⊢
+  all_goals (try split at hs)
+  all_goals (try split at hs)
+  all_goals (try simp only [Option.some.injEq, Prod.mk.injEq] at hs)
+  all_goals (try (obtain ⟨rfl, rfl⟩ := hs))
+  all_goals (simp_all [alternates_append])
+  obtain ⟨h1, h2⟩ := hg
+  rw [← h1]; exact h2
+
+/-- taking the lock -/
+theorem step_start (io : Bool) (i : Nat) (s s' : Shared) (l l' : Local) (hpc : l.pc = .start)
+    (hs : step i s l = some (s', l')) :
+    s.holder = none ∧ s' = { s with holder := some i } ∧ (s.isOpen = lastN io s → Good io s' l') := by
+  obtain ⟨job, pc⟩ := l
+  simp only at hpc; subst hpc
+  simp only [step] at hs
+  split at hs
+  · rename_i hn
+    simp only [Option.some.injEq, Prod.mk.injEq] at hs
+    obtain ⟨rfl, rfl⟩ := hs
+    refine ⟨by simpa using hn, rfl, ?_⟩
+    cases job <;> simp [Good, lastN]
+  · simp at hs
+
+/-- a thread outside the critical section cannot move while the lock is taken -/
+theorem step_idle (i : Nat) (s : Shared) (l : Local) (hpc : l.pc = .start ∨ l.pc = .done) (hh : s.holder ≠ none) :
+    step i s l = none := by
+  obtain ⟨job, pc⟩ := l
+  rcases hpc with hpc | hpc <;> simp only at hpc <;> subst hpc <;> simp [step]
+  cases h : s.holder <;> simp_all
+
+theorem step_done (i : Nat) (s : Shared) (l : Local) (hpc : l.pc = .done) : step i s l = none := by
+  obtain ⟨job, pc⟩ := l
+  simp only at hpc; subst hpc; simp [step]
+
+/-- the lock holder is never blocked -/
+theorem step_good_isSome (io : Bool) (i : Nat) (s : Shared) (l : Local) (hg : Good io s l) : (step i s l).isSome = true := by
+  obtain ⟨job, pc⟩ := l
+  cases pc <;> cases job <;> simp only [step, Good] at hg ⊢ <;> (try split) <;> simp_all
+
+theorem step_start_isSome (i : Nat) (s : Shared) (l : Local) (hpc : l.pc = .start) (hh : s.holder = none) :
+    (step i s l).isSome = true := by
+  obtain ⟨job, pc⟩ := l
+  simp only at hpc; subst hpc; simp [step, hh]
+
+/-! ### the global invariant -/
+
+structure Inv (fo fc io : Bool) (c : Config Shared Local) : Prop where
+  hfo : c.shared.forceOpen = fo
+  hfc : c.shared.forcedClosed = fc
+  alt : alternates io c.shared.log = true
+  /-- mutual exclusion: whoever does not hold the lock is outside the critical section -/
+  idle : ∀ j l, c.locals[j]? = some l → c.shared.holder ≠ some j → l.pc = .start ∨ l.pc = .done
+  held : ∀ i, c.shared.holder = some i → ∃ l, c.locals[i]? = some l ∧ Good io c.shared l
+  free : c.shared.holder = none → c.shared.isOpen = lastN io c.shared
+
+theorem Inv_init (fo fc io : Bool) (jobs : List Job) : Inv fo fc io (init fo fc io jobs) := by
+  refine ⟨rfl, rfl, rfl, ?_, ?_, ?_⟩
+  · intro j l hl _
+    simp only [init, List.getElem?_map, Option.map_eq_some_iff] at hl
+    obtain ⟨a, _, rfl⟩ := hl
+    exact Or.inl rfl
+  · intro i hi; simp [init] at hi
+  · intro _; simp [init, lastN]
+
+theorem Inv_step (fo fc io : Bool) (c : Config Shared Local) (i : Nat) (l : Local) (s' : Shared) (l' : Local)
+    (I : Inv fo fc io c) (hl : c.locals[i]? = some l) (hs : step i c.shared l = some (s', l')) :
+    Inv fo fc io { shared := s', locals := c.locals.set i l' } := by
+  have hi : i < c.locals.length := (List.getElem?_eq_some_iff.1 hl).1
+  cases hh : c.shared.holder with
+  | none =>
+    rcases I.idle i l hl (by simp [hh]) with hpc | hpc
+    · obtain ⟨_, rfl, hg⟩ := step_start io i _ _ _ _ hpc hs
+      refine ⟨I.hfo, I.hfc, I.alt, ?_, ?_, ?_⟩
+      · intro j lj hj hne
+        have hij : i ≠ j := by intro e; subst e; simp at hne
+        simp only [List.getElem?_set_ne hij] at hj
+        exact I.idle j lj hj (by simp [hh])
+      · intro k hk
+        simp only [Option.some.injEq] at hk
+        subst hk
+        exact ⟨l', by simp [hi], hg (I.free hh)⟩
+      · intro h; simp at h
+    · rw [step_done i _ l hpc] at hs; cases hs
+  | some h =>
+    by_cases e : i = h
+    · subst e
+      obtain ⟨lh, hlh, hg⟩ := I.held i hh
+      rw [hl] at hlh; cases hlh
+      obtain ⟨h1, h2, h3, h4⟩ := step_holder io i _ _ _ _ I.alt hg hs
+      rcases h4 with ⟨h5, h6⟩ | ⟨h5, h6, h7⟩
+      · refine ⟨h1.trans I.hfo, h2.trans I.hfc, h3, ?_, ?_, ?_⟩
+        · intro j lj hj hne
+          have hij : i ≠ j := by intro e; subst e; simp [h5, hh] at hne
+          simp only [List.getElem?_set_ne hij] at hj
+          exact I.idle j lj hj (by simp [hh, hij])
+        · intro k hk
+          simp only [h5, hh, Option.some.injEq] at hk
+          subst hk
+          exact ⟨l', by simp [hi], h6⟩
+        · intro hn; simp [h5, hh] at hn
+      · refine ⟨h1.trans I.hfo, h2.trans I.hfc, h3, ?_, ?_, ?_⟩
+        · intro j lj hj _
+          by_cases hij : i = j
+          · subst hij
+            simp only [List.getElem?_set_self hi, Option.some.injEq] at hj
+            subst hj; exact Or.inr h6
+          · simp only [List.getElem?_set_ne hij] at hj
+            exact I.idle j lj hj (by simp [hh, hij])
+        · intro k hk; simp [h5] at hk
+        · intro _; exact h7
+    · have hpc := I.idle i l hl (by simp [hh]; exact fun e' => e e'.symm)
+      rw [step_idle i _ l hpc (by simp [hh])] at hs; cases hs
+
+theorem Inv_run (fo fc io : Bool) (jobs : List Job) (sched : List Nat) :
+    Inv fo fc io (run sys (init fo fc io jobs) sched) :=
+  run_inv_tr sys (Inv fo fc io) (fun c i l s' l' I hl hs => Inv_step fo fc io c i l s' l' I hl hs) _
+    (Inv_init fo fc io jobs) sched
+
+/-- a finished thread does not hold the lock -/
+theorem Inv_quiescent (fo fc io : Bool) (c : Config Shared Local) (I : Inv fo fc io c) (hq : quiescent c = true) :
+    c.shared.holder = none := by
+  cases hh : c.shared.holder with
+  | none => rfl
+  | some h =>
+    obtain ⟨l, hl, hg⟩ := I.held h hh
+    have hm : l ∈ c.locals := List.mem_of_getElem? hl
+    have hd : l.pc = .done := by
+      have := (List.all_eq_true.1 hq) l hm
+      simpa using this
+    obtain ⟨job, pc⟩ := l
+    simp only at hd; subst hd
+    cases job <;> simp [Good] at hg
+
+theorem Inv_progress (fo fc io : Bool) (c : Config Shared Local) (I : Inv fo fc io c) (hq : quiescent c = false) :
+    ∃ i l, c.locals[i]? = some l ∧ (step i c.shared l).isSome = true := by
+  cases hh : c.shared.holder with
+  | some h =>
+    obtain ⟨l, hl, hg⟩ := I.held h hh
+    exact ⟨h, l, hl, step_good_isSome io h _ l hg⟩
+  | none =>
+    have : ∃ l ∈ c.locals, ¬ (l.pc == Pc.done) = true := by
+      simpa [quiescent, List.all_eq_false] using hq
+    obtain ⟨l, hm, hnd⟩ := this
+    obtain ⟨i, hl⟩ := List.mem_iff_getElem?.1 hm
+    refine ⟨i, l, hl, ?_⟩
+    rcases I.idle i l hl (by simp [hh]) with hpc | hpc
+    · exact step_start_isSome i _ l hpc hh
+    · simp [hpc] at hnd
+
+/-! ### overrides: nobody reaches `notify` (no mutual exclusion needed) -/
+
+def Quiet (fo fc : Bool) (l : Local) : Prop :=
+  match l.pc, l.job with
+  | .isOpenFO, .open => fc = false
+  | .isOpenFC, .open => False
+  | .isOpenFC, .close _ _ => fo = false
+  | .isOpenFlag, _ => False
+  | .guard2, _ => fo = true
+  | .decide, _ => False
+  | .notify, _ => False
+  | .store, _ => False
+  | _, _ => True
+
+theorem step_quiet (fo fc : Bool) (h : fo = true ∨ fc = true) (i : Nat) (s s' : Shared) (l l' : Local)
+    (hfo : s.forceOpen = fo) (hfc : s.forcedClosed = fc) (hq : Quiet fo fc l) (hs : step i s l = some (s', l')) :
+    s'.forceOpen = s.forceOpen ∧ s'.forcedClosed = s.forcedClosed ∧ s'.log = s.log ∧ s'.isOpen = s.isOpen ∧
+    Quiet fo fc l' := by
+  obtain ⟨job, pc⟩ := l
+  subst hfo hfc
+  cases pc <;> cases job <;> simp only [step, Quiet] at hs hq ⊢
+  all_goals (try split at hs)
+  all_goals (try split at hs)
+  all_goals (try simp only [Option.some.injEq, Prod.mk.injEq] at hs)
+  all_goals (try (obtain ⟨rfl, rfl⟩ := hs))
+  all_goals (simp_all)
+
+structure QInv (fo fc io : Bool) (c : Config Shared Local) : Prop where
+  hfo : c.shared.forceOpen = fo
+  hfc : c.shared.forcedClosed = fc
+  hlog : c.shared.log = []
+  hio : c.shared.isOpen = io
+  quiet : ∀ l ∈ c.locals, Quiet fo fc l
+
+theorem QInv_init (fo fc io : Bool) (jobs : List Job) : QInv fo fc io (init fo fc io jobs) := by
+  refine ⟨rfl, rfl, rfl, rfl, ?_⟩
+  intro l hl
+  simp only [init, List.mem_map] at hl
+  obtain ⟨j, _, rfl⟩ := hl
+  cases j <;> simp [Quiet]
+
+theorem QInv_run (fo fc io : Bool) (h : fo = true ∨ fc = true) (jobs : List Job) (sched : List Nat) :
+    QInv fo fc io (run sys (init fo fc io jobs) sched) := by
+  refine run_inv_tr sys (QInv fo fc io) ?_ _ (QInv_init fo fc io jobs) sched
+  intro c i l s' l' I hl hs
+  obtain ⟨h1, h2, h3, h4, h5⟩ := step_quiet fo fc h i _ _ l l' I.hfo I.hfc (I.quiet l (List.mem_of_getElem? hl)) hs
+  refine ⟨h1.trans I.hfo, h2.trans I.hfc, h3.trans I.hlog, h4.trans I.hio, ?_⟩
+  intro x hx
+  rcases List.mem_or_eq_of_mem_set hx with hx | rfl
+  · exact I.quiet x hx
+  · exact h5
+
 end CM.Conc.Trans
